@@ -6,6 +6,7 @@ import SodiumModel.Driver.C03
 import SodiumModel.Driver.C04
 import SodiumModel.Driver.C09
 import SodiumModel.Driver.C01
+import SodiumModel.Driver.C18
 open Sodium.Driver
 
 def handlers : List (String → List String → Option String) := [
@@ -14,7 +15,8 @@ def handlers : List (String → List String → Option String) := [
   Sodium.Driver.C15.handle,
   Sodium.Driver.C03.handle,
   Sodium.Driver.C04.handle,
-  Sodium.Driver.C01.handle
+  Sodium.Driver.C01.handle,
+  Sodium.Driver.C18.handle
 ]
 
 /-- state carried between op lines (stateful families only) -/
